@@ -47,6 +47,8 @@ def unary_forms(a):
         # keys that are no plain constants: a negative number (a UnaryOp), a tuple, a key only known when the query runs, a ** entry
         (f"{{-1: ({t}), 'a': 2}}.a", "DictNegKeySiblingAttr"), (f"{{(1, 2): 1, 'a': ({t})}}['a']", "DictTupleKeySiblingKey"), (f"{{(e).k: ({t})}}", "DictRuntimeKey"),
         (f"{{'a': ({t}), **(e).rest}}", "DictUnpacking"), (f"{{f'{{(e).n}}': ({t})}}", "DictFStringKey"),
+        # keys that are identifiers but not in the normal form python gives to names (micro sign, ligature, full-width letter)
+        (f"{{'\u00b5': ({t}), 'n': 1}}['\u00b5']", "DictNonNFKCKey"), (f"{{'\ufb01t': ({t})}}['\ufb01t']", "DictLigatureKey"), (f"{{'\uff41': 1, 'n': ({t})}}.n", "DictFullWidthKeySibling"),
         (f"({t},)[0]", "TupLitIdx"), (f"{{'k': ({t})}}.k", "DictLitAttr"), (f"{{'k': ({t})}}['k']", "DictLitKey"),
         (f"({t}).x[0](1)", "CallOfSubscriptOfAttr"), (f"({t}).__call__(1)", "DunderCall"), (f"({t})[(e).x]", "SubRuntimeKey"),
         # methods python's own value types really have (with defaults the caller leaves out / with no inspectable signature)
